@@ -85,6 +85,185 @@ mutual
       simp only [repositionAcc, EPa]; exact ⟨hp, EP_reposition hp e, EPa_reposition hp r⟩
 end
 
+/-! ### trees of the file parser -/
+
+def EPo (S : Item → Prop) : Option Expr → Prop
+  | none => True
+  | some e => EP S e
+
+def EPl (S : Item → Prop) (l : List Expr) : Prop := ∀ e ∈ l, EP S e
+
+def DirsP (S : Item → Prop) (ds : List Directive) : Prop := ∀ d ∈ ds, PosOK S d.pos ∧ EPl S d.args
+
+open SoyVerif.Model.FileParser in
+mutual
+  /-- every node of the tree — command nodes, list nodes, the expressions below them — is
+      positioned at an `S`-token -/
+  def NP (S : Item → Prop) : Node → Prop
+    | .rawText p _ => PosOK S p
+    | .print p a ds => PosOK S p ∧ EP S a ∧ DirsP S ds
+    | .msg p _ _ body => PosOK S p ∧ NP S body
+    | .css p e _ => PosOK S p ∧ EPo S e
+    | .debugger p => PosOK S p
+    | .log p b => PosOK S p ∧ NP S b
+    | .ifc p conds => PosOK S p ∧ NPL S conds
+    | .ifCond p c b => PosOK S p ∧ EPo S c ∧ NP S b
+    | .forc p _ l b ie => PosOK S p ∧ EP S l ∧ NP S b ∧ NPL S ie
+    | .switch p v cs => PosOK S p ∧ EP S v ∧ NPL S cs
+    | .switchCase p vs b => PosOK S p ∧ EPl S vs ∧ NP S b
+    | .call p _ _ d ps => PosOK S p ∧ EPo S d ∧ NPL S ps
+    | .paramValue p _ e => PosOK S p ∧ EP S e
+    | .paramContent p _ b => PosOK S p ∧ NP S b
+    | .letValue p _ e => PosOK S p ∧ EP S e
+    | .letContent p _ b => PosOK S p ∧ NP S b
+    | .headerParam p _ _ _ _ d => PosOK S p ∧ EPo S d
+    | .nspace p _ _ => PosOK S p
+    | .template p _ b _ _ => PosOK S p ∧ NP S b
+    | .soyDoc p _ => PosOK S p
+    | .list p ns => PosOK S p ∧ NPL S ns
+    | .plural p v cs d => PosOK S p ∧ EP S v ∧ NPL S cs ∧ NP S d
+    | .pluralCase p _ b => PosOK S p ∧ NP S b
+    | .placeholder p b => PosOK S p ∧ NP S b
+    | .htmlTag p _ => PosOK S p
+  def NPL (S : Item → Prop) : NodeList → Prop
+    | .nil => True
+    | .cons n r => NP S n ∧ NPL S r
+end
+
+open SoyVerif.Model.FileParser in
+theorem NP.pos {S : Item → Prop} {n : Node} (h : NP S n) : PosOK S n.pos := by
+  cases n <;> simp only [NP] at h <;> first | exact h | exact h.1
+
+open SoyVerif.Model.FileParser in
+theorem NPL_append {S : Item → Prop} : ∀ (a b : NodeList), NPL S a → NPL S b → NPL S (a.append b)
+  | .nil, b, _, hb => by simpa [NodeList.append] using hb
+  | .cons n r, b, ha, hb => by
+    simp only [NPL] at ha
+    simp only [NodeList.append, NPL]
+    exact ⟨ha.1, NPL_append r b ha.2 hb⟩
+
+open SoyVerif.Model.FileParser in
+theorem NPL_nil {S : Item → Prop} : NPL S .nil := by simp only [NPL]
+
+theorem EPl_nil {S : Item → Prop} : EPl S [] := fun _ h => absurd h (by simp)
+theorem EPl_append {S : Item → Prop} {a b : List Expr} (ha : EPl S a) (hb : EPl S b) : EPl S (a ++ b) := by
+  intro e he
+  rcases List.mem_append.mp he with h | h
+  · exact ha e h
+  · exact hb e h
+theorem EPl_single {S : Item → Prop} {e : Expr} (h : EP S e) : EPl S [e] := by
+  intro x hx; simp only [List.mem_singleton] at hx; rw [hx]; exact h
+theorem DirsP_nil {S : Item → Prop} : DirsP S [] := fun _ h => absurd h (by simp)
+theorem DirsP_append {S : Item → Prop} {a b : List Directive} (ha : DirsP S a) (hb : DirsP S b) : DirsP S (a ++ b) := by
+  intro e he
+  rcases List.mem_append.mp he with h | h
+  · exact ha e h
+  · exact hb e h
+
+open SoyVerif.Model.FileParser in
+theorem NPL_ite {S : Item → Prop} {c : Prop} [Decidable c] {a b : NodeList} (ha : NPL S a) (hb : NPL S b) :
+    NPL S (if c then a else b) := by
+  split
+  · exact ha
+  · exact hb
+
+open SoyVerif.Model.FileParser in
+/-- the pieces `parseMsgRawText` cuts a text into keep the text's position -/
+theorem NPL_parseMsgRawText {S : Item → Prop} {pos : Nat} (hp : PosOK S pos) :
+    ∀ (fuel : Nat) (txt : Bytes), NPL S (parseMsgRawText fuel pos txt)
+  | 0, _ => by simp only [parseMsgRawText, NPL]
+  | fuel + 1, txt => by
+    have hpiece : ∀ start stop : Nat, NPL S
+        (((if start > 0 then NodeList.cons (.rawText pos (txt.take start)) .nil else .nil).append
+          (if stop > start then NodeList.cons (.placeholder pos (.htmlTag pos ((txt.drop start).take (stop - start)))) .nil
+           else .nil)).append (parseMsgRawText fuel pos (txt.drop stop))) := by
+      intro start stop
+      apply NPL_append
+      · apply NPL_append
+        · exact NPL_ite (by simp only [NPL, NP]; exact ⟨hp, trivial⟩) (by simp only [NPL])
+        · exact NPL_ite (by simp only [NPL, NP]; exact ⟨⟨hp, hp⟩, trivial⟩) (by simp only [NPL])
+      · exact NPL_parseMsgRawText hp fuel _
+    unfold parseMsgRawText
+    split
+    · simp only [NPL]
+    · cases findHtmlTag txt 0 with
+      | none => exact hpiece _ _
+      | some p => exact hpiece p.1 p.2
+
+open SoyVerif.Model.FileParser in
+mutual
+  /-- `placeholderize` keeps every node at a token: placeholders take the position of the node
+      they wrap -/
+  theorem NP_placeholderize {S : Item → Prop} : ∀ (n n' : Node), placeholderize n = some n' → NP S n → NP S n'
+    | .list pos nodes, n', h, hn => by
+      simp only [placeholderize, Option.map_eq_some_iff] at h
+      obtain ⟨r, hr, rfl⟩ := h
+      simp only [NP] at hn ⊢
+      exact ⟨hn.1, NPL_phChildren nodes r hr hn.2⟩
+    | .rawText .., _, h, _ | .print .., _, h, _ | .msg .., _, h, _ | .css .., _, h, _ | .debugger .., _, h, _
+    | .log .., _, h, _ | .ifc .., _, h, _ | .ifCond .., _, h, _ | .forc .., _, h, _ | .switch .., _, h, _
+    | .switchCase .., _, h, _ | .call .., _, h, _ | .paramValue .., _, h, _ | .paramContent .., _, h, _
+    | .letValue .., _, h, _ | .letContent .., _, h, _ | .headerParam .., _, h, _ | .nspace .., _, h, _
+    | .template .., _, h, _ | .soyDoc .., _, h, _ | .plural .., _, h, _ | .pluralCase .., _, h, _
+    | .placeholder .., _, h, _ | .htmlTag .., _, h, _ => by simp [placeholderize] at h
+  theorem NPL_phChildren {S : Item → Prop} : ∀ (ns r : NodeList), phChildren ns = some r → NPL S ns → NPL S r
+    | .nil, r, h, _ => by simp only [phChildren, Option.some.injEq] at h; subst h; simp only [NPL]
+    | .cons c rest, r, h, hn => by
+      simp only [NPL] at hn
+      unfold phChildren at h
+      split at h
+      · rename_i pos text
+        simp only [Option.map_eq_some_iff] at h
+        obtain ⟨r', hr', rfl⟩ := h
+        have hc := hn.1
+        simp only [NP] at hc
+        exact NPL_append _ _ (NPL_parseMsgRawText hc _ _) (NPL_phChildren rest r' hr' hn.2)
+      · rename_i pos value cases dflt
+        split at h
+        · rename_i cs d r' hcs hd hr'
+          simp only [Option.some.injEq] at h
+          subst h
+          have hc := hn.1
+          simp only [NP] at hc
+          simp only [NPL, NP]
+          exact ⟨⟨hc.1, hc.2.1, NPL_phCases cases cs hcs hc.2.2.1, NP_placeholderize dflt d hd hc.2.2.2⟩,
+            NPL_phChildren rest r' hr' hn.2⟩
+        · exact absurd h (by simp)
+      · simp only [Option.map_eq_some_iff] at h
+        obtain ⟨r', hr', rfl⟩ := h
+        simp only [NPL, NP]
+        exact ⟨⟨hn.1.pos, hn.1⟩, NPL_phChildren rest r' hr' hn.2⟩
+  theorem NPL_phCases {S : Item → Prop} : ∀ (cs r : NodeList), phCases cs = some r → NPL S cs → NPL S r
+    | .nil, r, h, _ => by simp only [phCases, Option.some.injEq] at h; subst h; simp only [NPL]
+    | .cons c rest, r, h, hn => by
+      simp only [NPL] at hn
+      unfold phCases at h
+      split at h
+      · rename_i pos v body
+        split at h
+        · rename_i b r' hb hr'
+          simp only [Option.some.injEq] at h
+          subst h
+          have hc := hn.1
+          simp only [NP] at hc
+          simp only [NPL, NP]
+          exact ⟨⟨hc.1, NP_placeholderize body b hb hc.2⟩, NPL_phCases rest r' hr' hn.2⟩
+        · exact absurd h (by simp)
+      · exact absurd h (by simp)
+end
+
+/-- position goals: unfold the predicates and close the leaves from the context -/
+macro "np" : tactic => `(tactic|
+  (simp only [NP, NPL, EPo]
+   repeat' (first
+     | exact trivial
+     | assumption
+     | exact posOK_of (by assumption)
+     | exact And.right (by assumption)
+     | exact NP.pos (by assumption)
+     | exact EP.pos (by assumption)
+     | constructor)))
+
 /-- the position `errorf` reports is that of a token of the state -/
 theorem errPos_ok {S : Item → Prop} {st : PState} (hpc : st.peekCount ≤ 2) (ht : TokS S st) :
     ∃ p, errPos st = .ok p ∧ PosOK S p := by
